@@ -121,13 +121,20 @@ def gen(rng, tier):
             rops.append(["latch_wait", "sent-m", 300])
         rops.append(["sleep", 1.0])
     rops.append(["setcb", T, want_end, None, None, None, "cb-end"])
-    rops.append(["recv", T])  # must be refused with OSError
+    dropped = want_end and recv_side == "i" and T == "c0" and rng.random() < 0.25
+    if dropped:
+        # the callback stays active although the channel object is gone: the endmarker must still arrive
+        rops.append(["drop", T])
+        rops.append(["gc"])
+    else:
+        rops.append(["recv", T])  # must be refused with OSError
     if want_end:
         rops.append(["latch_wait", "cb-end", 600])
     else:
         rops.append(["waitclose", T, 600])
     rops.append(["sleep", 0.5])
-    rops.append(["recv", T])
+    if not dropped:
+        rops.append(["recv", T])
     if recv_side == "i":
         actors.append({"side": "i", "gw": gwi, "chan": "c0", "ops": rops})
         R_aid = len(actors) - 1
@@ -270,11 +277,18 @@ def oracle(case, res, hist):
             if r is not None and not (r[1][0] == "exc" and r[1][1] == "OSError"):
                 V.append(v("receive-not-refused-after-setcallback", key0, f"{r[1]}"))
     # did the receiver see the end?  (its wait op returned)
-    wait_oi = cb_oi + 2
+    wait_oi = [i for i, o in enumerate(ops) if i > cb_oi and o[0] in ("latch_wait", "waitclose")][0]
     wr = hist.ret.get((R, wait_oi))
     ended = wr is not None and (wr[1] == ("val", True) or wr[1][0] in ("ok", "exc"))
     if case["want_end"] and wr is not None and wr[1] == ("val", False):
-        V.append(v("endmarker-never-delivered", key0, "no endmarker within 600 simulated seconds after the stream ended"))
+        was_dropped = any(o[0] == "drop" for o in ops)
+        if was_dropped and not (case["ending"] == "kill" and res.fault_log):
+            # receiver dropped its channel object (callback stays registered), then the peer ended normally
+            V.append(v("endmarker-never-delivered", "dropped-receiver;peer-ended-normally",
+                       "callback channel object dropped, then the remote side finished: no endmarker within 600 s"))
+        else:
+            V.append(v("endmarker-never-delivered", key0 + (";dropped-receiver" if was_dropped else ""),
+                       "no endmarker within 600 simulated seconds after the stream ended"))
         ended = False
     if len(set(toks)) != len(toks):
         V.append(v("dup-item", key0, f"callback got {toks}"))
